@@ -457,6 +457,42 @@ class G:
         return (r.choice(LCOUNT), ('n', Fr(r.randint(0, 3))), ('count', [self.logical(d - 1) for _ in range(r.randint(1, 3))]))
 
 
+def make_feasible_at(m, rng, prob=0.75):
+    """Move constraint bounds / negate logical constraints so that (with probability prob each) they hold at one random point of the
+    variable domain; returns that point or None.  Keeps all data on the dyadic grid."""
+    p = []
+    for v in m.vars:
+        lo, hi = Fr(v['lb']), Fr(v['ub'])
+        if v['type'] == 'c':
+            p.append(lo + Fr(rng.randint(0, int((hi - lo) * 4)), 4) if hi > lo else lo)
+        else:
+            p.append(Fr(rng.randint(int(lo), int(hi))))
+    try:
+        ev = m.evaluate(p)
+    except ZeroDivisionError:
+        return None
+    for i, (c, b) in enumerate(zip(m.cons, ev['bodies'])):
+        if i in m.compl or rng.random() > prob or (c['lb'] <= b <= c['ub']):
+            continue
+        if c['lb'] == c['ub']:
+            c['lb'] = c['ub'] = b
+        else:
+            w = (c['ub'] - c['lb']) if (c['lb'] != -math.inf and c['ub'] != math.inf) else None
+            if c['lb'] != -math.inf and b < c['lb']:
+                c['lb'] = b - Fr(rng.randint(0, 4), 4)
+                if w is not None:
+                    c['ub'] = max(c['ub'], c['lb'] + w) if rng.random() < 0.5 else c['lb'] + w
+            elif c['ub'] != math.inf and b > c['ub']:
+                c['ub'] = b + Fr(rng.randint(0, 4), 4)
+                if w is not None:
+                    c['lb'] = c['ub'] - w
+    dv = ev['dv']
+    for i, e in enumerate(m.lcons):
+        if rng.random() <= prob and not m.lg(e, p, dv):
+            m.lcons[i] = ('not', e)
+    return p
+
+
 def grid_points(m, rng, cap=2048):
     """Test points of the original-variable domain: all integer points x the quarter-grid of continuous domains (capped, sampled if larger)."""
     axes = []
